@@ -515,13 +515,42 @@ def attr_elem_kinds(trees):
 ORDER_EFFECTS = {"append", "add_next", "add_prev", "insert", "extend", "write", "add_instruction"}
 
 
+def _ann_text(a):
+    return ast.unparse(a).replace('"', "").replace("'", "").replace(" ", "") if a is not None else ""
+
+
 def order_loops(tree, attr_kinds):
-    """for-loops over a hash-ordered set whose body has an order-sensitive effect (appends, edge insertions, output)"""
+    """for-loops over a hash-ordered set whose body has an order-sensitive effect (appends, edge insertions, output, text built with +=)"""
     out = []
+    returns = {f.name: _ann_text(f.returns) for f in ast.walk(tree) if isinstance(f, ast.FunctionDef) and f.returns is not None}
     for fn in [f for f in ast.walk(tree) if isinstance(f, ast.FunctionDef)]:
+        # names of this function whose declared type is known: annotated locals / parameters, and locals bound to the result of a function
+        # of this module with a return annotation
+        types = {a.arg: _ann_text(a.annotation) for a in fn.args.args + fn.args.kwonlyargs if a.annotation is not None}
+        for n in ast.walk(fn):
+            if isinstance(n, ast.AnnAssign) and isinstance(n.target, ast.Name):
+                types[n.target.id] = _ann_text(n.annotation)
+            elif isinstance(n, ast.Assign) and len(n.targets) == 1 and isinstance(n.targets[0], ast.Name) and isinstance(n.value, ast.Call):
+                f = n.value.func
+                nm = f.id if isinstance(f, ast.Name) else f.attr if isinstance(f, ast.Attribute) else None
+                if nm in returns:
+                    types.setdefault(n.targets[0].id, returns[nm])
+        # loop variables bound to the values of a Dict[..., Set[str]]
+        set_vars = {k for k, t in types.items() if t.startswith(("Set[str]", "set[str]"))}
+        for loop in [n for n in ast.walk(fn) if isinstance(n, ast.For)]:
+            it = loop.iter
+            if isinstance(it, ast.Call) and isinstance(it.func, ast.Attribute) and it.func.attr in ("items", "values") and isinstance(it.func.value, ast.Name):
+                t = types.get(it.func.value.id, "")
+                if t.startswith(("Dict[", "dict[")) and t.rstrip("]").endswith(("Set[str", "set[str")):
+                    tgt = loop.target
+                    v = tgt.elts[-1] if isinstance(tgt, ast.Tuple) and it.func.attr == "items" else tgt
+                    if isinstance(v, ast.Name):
+                        set_vars.add(v.id)
         for loop in [n for n in ast.walk(fn) if isinstance(n, ast.For)]:
             it = loop.iter
             kind = None
+            if isinstance(it, ast.Name) and it.id in set_vars:
+                kind = "unstable"
             if isinstance(it, ast.Call) and isinstance(it.func, ast.Name) and it.func.id in ("set", "frozenset") and it.args:
                 inner = it.args[0]
                 if isinstance(inner, ast.Attribute):
@@ -531,6 +560,8 @@ def order_loops(tree, attr_kinds):
             if kind != "unstable":
                 continue
             effects = [c for st in loop.body for c in ast.walk(st) if isinstance(c, ast.Call) and isinstance(c.func, ast.Attribute) and c.func.attr in ORDER_EFFECTS]
+            # text or a list built piece by piece (x += ...) in the order of the iteration
+            effects += [c for st in loop.body for c in ast.walk(st) if isinstance(c, ast.AugAssign) and isinstance(c.op, ast.Add) and isinstance(c.target, ast.Name)]
             if effects:
                 out.append((fn, loop, effects[0]))
     return out
@@ -671,6 +702,9 @@ def rule_hash_order(ctx, rep):
     ak = attr_elem_kinds(ctx.trees)
     fx2 = ast.parse("def g(ins, labels):\n    for l in set(ins.labels):\n        ins.add_next(labels[l])\n    for l in ins.labels:\n        ins.add_next(labels[l])\n")
     rep.require(len(order_loops(fx2, {"labels": "unstable"})) == 1, "E-ORDER(loop) does not recognise its positive fixture")
+    fx5 = ast.parse("def g() -> Dict[str, Set[str]]:\n    return {}\n\ndef p():\n    out = ''\n    graph = g()\n    for k, vs in graph.items():\n        for v in vs:\n            out += v\n"
+                    "        for v in sorted(vs):\n            out += v\n    return out\n")
+    rep.require(len(order_loops(fx5, {})) == 1, "E-ORDER(loop) does not recognise its dictionary-of-sets fixture")
     loops = 0
     for modname, tree in ctx.trees.items():
         for fn, loop, eff in order_loops(tree, ak):
